@@ -441,12 +441,16 @@ func (in *Interp) runPath(prefix []Dec) {
 				in.res.Inconclusive = append(in.res.Inconclusive, "unsupported: "+r.why)
 			case budgetExceeded:
 				status, msg = "budget", r.what
-				if r.what == "call depth" && in.cfg.DepthIsViolation {
+				if (r.what == "call depth" || r.what == "steps") && in.cfg.DepthIsViolation {
 					status = "violation-depth"
 					in.assertStat("terminates").Reached++
 					in.assertStat("terminates").Sat++
 					_, m := in.solve("model", nil, in.inputTerms())
-					in.recordViolation("terminates", m, "call depth budget exhausted (unbounded recursion?)")
+					why := "call depth budget exhausted (unbounded recursion?)"
+					if r.what == "steps" {
+						why = "step budget exhausted (a loop that does not end?)"
+					}
+					in.recordViolation("terminates", m, why)
 				} else {
 					in.res.Inconclusive = append(in.res.Inconclusive, "budget exceeded: "+r.what)
 				}
